@@ -167,8 +167,8 @@ def replaceCycle (tr : Transition) (ci : Nat) (c : Cycle) : R Transition := do
     totalViolation := tr.totalViolation + posMax0 c.counter - posMax0 oldCycle.counter
     totalCounter := tr.totalCounter + c.counter - oldCycle.counter }
 
-/-- `TransitionCycle::three_opt` -/
-def threeOpt (nw : Network) (c : Cycle) (i j k : Nat) (tours : Tours) : R Cycle := do
+/-- the counter update of `TransitionCycle::three_opt` -/
+def threeOptCounter (nw : Network) (c : Cycle) (i j k : Nat) (tours : Tours) : R Int := do
   let n := c.vehicles.length
   if n == 0 then .error (.panic "three_opt: % 0") else
   let tourAt (p : Nat) : R Tour := do
@@ -180,13 +180,21 @@ def threeOpt (nw : Network) (c : Cycle) (i j k : Nat) (tours : Tours) : R Cycle 
   let sj1 ← startDepotU nw (← tourAt ((j + 1) % n))
   let ek ← endDepotU nw (← tourAt k)
   let sk1 ← startDepotU nw (← tourAt ((k + 1) % n))
-  let counter := c.counter - depotDist nw ei si1 - depotDist nw ej sj1 - depotDist nw ek sk1
-    + depotDist nw ei sj1 + depotDist nw ej sk1 + depotDist nw ek si1
-  -- slices `[..i+1] ++ [j+1..k+1] ++ [i+1..j+1] ++ [k+1..]` with the Rust bounds checks
-  if !(i + 1 ≤ j + 1 && j + 1 ≤ k + 1 && k + 1 ≤ n) then .error (.panic "three_opt: slice bounds") else
-  let vs := c.vehicles
-  let new := vs.take (i + 1) ++ (vs.drop (j + 1)).take (k - j) ++ (vs.drop (i + 1)).take (j - i) ++ vs.drop (k + 1)
-  pure { vehicles := new, counter := counter }
+  pure (c.counter - depotDist nw ei si1 - depotDist nw ej sj1 - depotDist nw ek sk1
+    + depotDist nw ei sj1 + depotDist nw ej sk1 + depotDist nw ek si1)
+
+/-- the slices `[..i+1] ++ [j+1..k+1] ++ [i+1..j+1] ++ [k+1..]` -/
+def threeOptOrder {α} (vs : List α) (i j k : Nat) : List α :=
+  vs.take (i + 1) ++ (vs.drop (j + 1)).take (k - j) ++ (vs.drop (i + 1)).take (j - i) ++ vs.drop (k + 1)
+
+/-- `TransitionCycle::three_opt` (the slice expressions carry the Rust bounds checks) -/
+def threeOpt (nw : Network) (c : Cycle) (i j k : Nat) (tours : Tours) : R Cycle :=
+  match threeOptCounter nw c i j k tours with
+  | .error e => .error e
+  | .ok counter =>
+    if i + 1 ≤ j + 1 ∧ j + 1 ≤ k + 1 ∧ k + 1 ≤ c.vehicles.length then
+      .ok { vehicles := threeOptOrder c.vehicles i j k, counter := counter }
+    else .error (.panic "three_opt: slice bounds")
 
 /-! #### `Transition::new_fast` = `one_cluster_per_maintenance` -/
 
